@@ -7,7 +7,7 @@ asynchronous goroutine) is its own step.
 * `Sms`  — `link/solicit/solicit-mounted.go` (`solicitMountedStream`: `AcceptMountedStream`,
   `Close`) and `link/solicit/controller/controller.go` (`resolveMatch`: which values are created
   for a matched stream). Model of the code AS FIXED (error checked under the mutex; one value per
-  stream). `Sms.Orig` is the code before the fixes (unlocked `s.err` read as its own step, one
+  stream; a value nobody takes is closed by `resolveMatch`). `Sms.Orig` is the code before the fixes (unlocked `s.err` read as its own step, one
   value per matching directive) and is only used to exhibit the defects.
 * `Hold` — `link/hold-open/establish_link.go` (`establishLinkHandler`: `HandleValueAdded` with its
   asynchronous `AddReference` goroutine, `HandleValueRemoved`, `HandleInstanceDisposed` with their
@@ -62,9 +62,11 @@ deriving Repr, DecidableEq
 
 def step (s : State) : Op → State × Res
   | .resolve k =>
-    -- one value around the stream, emitted to each of the k matching directives
-    ({ s with wrappers := s.wrappers ++ [⟨some s.nextStream, false, false⟩],
-              nextStream := s.nextStream + 1 }, .created 1 k)
+    -- one value around the stream, emitted to each of the k matching directives; when nobody
+    -- takes it (k = 0) resolveMatch closes it: the stream is closed and the value carries the error
+    ({ s with wrappers := s.wrappers ++ [⟨some s.nextStream, k == 0, false⟩],
+              nextStream := s.nextStream + 1,
+              closed := if k == 0 then s.nextStream :: s.closed else s.closed }, .created 1 k)
   | .newNil => ({ s with wrappers := s.wrappers ++ [⟨none, false, false⟩] }, .created 1 1)
   | .newErr => ({ s with wrappers := s.wrappers ++ [⟨none, true, false⟩] }, .created 1 1)
   | .accept i =>
